@@ -211,6 +211,9 @@ func (self *ReplicationBufferQueue) AddPoll(cursor *ReplicationBufferQueueCursor
 	self.glock.Lock()
 	self.pollCount++
 	currentItem := cursor.currentItem
+	if currentItem != nil && currentItem.pollCount == 0xffffffff {
+		currentItem = nil
+	}
 	for currentItem != nil {
 		atomic.AddUint32(&currentItem.pollCount, 1)
 		currentItem = currentItem.nextItem
@@ -222,6 +225,9 @@ func (self *ReplicationBufferQueue) RemovePoll(cursor *ReplicationBufferQueueCur
 	self.glock.Lock()
 	self.pollCount--
 	currentItem := cursor.currentItem
+	if currentItem != nil && currentItem.pollCount == 0xffffffff {
+		currentItem = nil
+	}
 	for currentItem != nil {
 		atomic.AddUint32(&currentItem.pollIndex, 1)
 		currentItem = currentItem.nextItem
@@ -311,7 +317,7 @@ func (self *ReplicationBufferQueue) Pop(cursor *ReplicationBufferQueueCursor) er
 			self.glock.RUnlock()
 			return io.EOF
 		}
-		if currentItem.seq-cursor.seq != 1 && currentItem.seq != 0 && cursor.seq != 0xffffffffffffffff {
+		if currentItem.seq-cursor.seq != 1 && currentItem.seq != 0 {
 			self.glock.RUnlock()
 			return errors.New("out of buf")
 		}
